@@ -311,8 +311,8 @@ class C16(PropertyCheck):
                         break
             except (RecursionError, Stall):
                 stalled = True
-            if counter[0] > 3000:
-                stalled = True
+            if counter[0] > 150:
+                stalled = True            # the Coq evaluation looks at a prefix of P = 240 source elements: keep well inside it
             if stalled or any(abs(x) > 10 ** 15 for x in ref):
                 continue
             need = counter[0]
